@@ -264,6 +264,8 @@ let rec adapter_of_parts (parts : string list) : adapter =
   | ["M"; l; f] -> AMemory (dec_rules l, f = "1")
   | ["F"; l; f] -> AFile (dec_rules l, f = "1")
   | ["S"; l; f] -> AString (dec_rules l, f = "1")
+  | ["T"; t] -> AString (parsed_lines (dec t), false)
+  | ["Ft"; t] -> AFile (parsed_lines (dec t), false)
   | "X" :: rest ->
     let n = List.length rest in
     let inner = List.filteri (fun i _ -> i < n - 1) rest and sc = List.nth rest (n - 1) in
@@ -440,6 +442,37 @@ let prep_pm (toks : string list) : string =
     String.concat " " ("pm" :: fn :: k :: enc p :: rest)
   | _ -> String.concat " " toks
 
+(* ---------- engine: text formats (C16 / C09) ---------- *)
+let sort_strs l = List.sort compare l
+let run_txt kind t =
+  let t = dec t in
+  match kind with
+  | "csv" -> (match parse_csv_line t with None -> "N" | Some v -> enc_rule v)
+  | "esc" -> "t." ^ enc (escape_assertion t)
+  | "rmc" -> "t." ^ enc (remove_comment t)
+  | "csvf" -> "t." ^ enc (csv_field t)
+  | "ini" ->
+    (match parse_config t with
+     | None -> "E"
+     | Some c ->
+       if c = [] then "-" else
+         let raw = List.sort compare (List.map (fun ((s, k), v) -> (implode s, implode k, implode v)) c) in
+         String.concat "+" (List.map (fun (s, k, v) ->
+             Printf.sprintf "%s^%s^%s" (enc (explode s)) (enc (explode k)) (enc (explode v))) raw))
+  | "mdl" ->
+    (match model_of_text t with
+     | None -> "E"
+     | Some m ->
+       let out = List.concat_map (fun (sec, ds) ->
+           List.map (fun d -> Printf.sprintf "%s^%s^%s^%s" (implode sec) (enc d.ad_key) (enc d.ad_value)
+                        (enc_rule d.ad_tokens)) ds) m in
+       if out = [] then "-" else String.concat "+" out)
+  | "totext" ->
+    (match model_of_text t with
+     | None -> "E"
+     | Some m -> "t." ^ enc (to_text m))
+  | _ -> failwith "txt"
+
 (* ---------- property predicates on engine traces ---------- *)
 let cvprop = try Sys.getenv "CVPROP" with Not_found -> ""
 
@@ -519,6 +552,7 @@ let run_case (line : string) (toks : string list) : string =
      | Some _ -> "ok" | None -> "PANIC")
   | ["rm"; maxd; ops; qs] -> run_rm maxd ops qs
   | "pm" :: fn :: k :: pat :: rest -> run_pm fn k pat rest
+  | [("csv" | "esc" | "rmc" | "csvf" | "ini" | "mdl" | "totext") as kind; t] -> run_txt kind t
   | _ -> "?unknown-case"
 
 let pred_case (line : string) (toks : string list) (impl : string) : string =
